@@ -221,6 +221,33 @@ class Scene:
             if _brace(src.uid) not in recs or f"Property:{name}" not in self.group.get_concatenated_attributes(self.hole_uid[h]):
                 raise RuntimeError("source changed: an edit of the copy removed a data record / key of the source")
 
+    def _CopyPurge(self, holes=None, **_):
+        """Copy to another workspace, create and remove an unrelated group there in the same session, close, re-open
+        the target and read every data set of every hole of the copy (any exception is the outcome)."""
+        from geoh5py import Workspace
+        from geoh5py.groups import ContainerGroup
+        self.n_copies += 1
+        path = self.path.replace(".geoh5", f"_purge{self.n_copies}.geoh5")
+        other = Workspace.create(path, version={20: 2.0, 21: 2.1}[self.version])
+        try:
+            copy = self.group.copy(parent=other, name=f"purge{self.n_copies}")
+            uid = copy.uid
+            other.remove_entity(ContainerGroup.create(other, name="unrelated"))
+        finally:
+            other.close()
+        again = Workspace(path)
+        try:
+            group = again.get_entity(uid)[0]
+            for hole in group.children:
+                if hasattr(hole, "get_data_list"):
+                    for name in hole.get_data_list():
+                        for data in hole.get_data(name):
+                            _ = data.values, data.entity_type.primitive_type
+        except Exception:
+            again.close()
+            raise
+        self.copies.append({"ws": again, "uid": uid, "same": False, "path": path})
+
     def _AddObjectData(self, h, vals, new=None, **_):
         try:
             self.hole(h).add_data({"o": {"association": "OBJECT", "values": _floats(vals)}})
